@@ -62,6 +62,12 @@ Rec == [addr : Addrs, zone : Zones, tok : Toks, reg : Stamps, ro : BOOLEAN, rots
 Remove(d, i) == [j \in DOMAIN d \ {i} |-> d[j]]
 Add(d, i, r) == [j \in DOMAIN d \cup {i} |-> IF j = i THEN r ELSE d[j]]
 
+(* ring.Config.ExcludedZones: Ring.updateRingState drops the instances of  *)
+(* the excluded zones X from EVERY delivered descriptor before anything    *)
+(* else (classification, indexes, r.ringDesc) sees it: the client's        *)
+(* "latest ring content" is Exclude(store content, X).                     *)
+Exclude(d, X) == [i \in {j \in DOMAIN d : d[j].zone \notin X} |-> d[i]]
+
 (* The fields Desc.RingCompare looks at before it reaches states and       *)
 (* heartbeats (ring/model.go): Addr, Zone, RegisteredTimestamp, ReadOnly,  *)
 (* ReadOnlyUpdatedTimestamp, Tokens.                                       *)
@@ -314,8 +320,33 @@ UpdRemove    == \E i \in DOMAIN desc : Update(Remove(desc, i))
 UpdMixed     == \E i \in DOMAIN desc, v \in Addrs, s \in States :
                    v # desc[i].addr /\ s # desc[i].state /\ Update([desc EXCEPT ![i].addr = v, ![i].state = s])
 
+\* Two instances exchange one topology field (tokens, zone, read-only flag and time, registration time): every
+\* aggregate an index could be keyed on (the token list, the zone set, the per-zone counters, the number of
+\* read-only instances, the oldest registration / read-only time) stays, only the assignment moves.
+Swap(d, i, j, f) ==
+    CASE f = "tok"  -> [d EXCEPT ![i].tok = d[j].tok, ![j].tok = d[i].tok]
+      [] f = "zone" -> [d EXCEPT ![i].zone = d[j].zone, ![j].zone = d[i].zone]
+      [] f = "ro"   -> [d EXCEPT ![i].ro = d[j].ro, ![j].ro = d[i].ro, ![i].rots = d[j].rots, ![j].rots = d[i].rots]
+      [] f = "reg"  -> [d EXCEPT ![i].reg = d[j].reg, ![j].reg = d[i].reg]
+UpdSwap == \E i \in DOMAIN desc, j \in DOMAIN desc, f \in {"tok", "zone", "ro", "reg"} :
+              i < j /\ Swap(desc, i, j, f) # desc /\ Update(Swap(desc, i, j, f))
+\* an instance leaves and an existing one takes over its token alternative ("handover")
+UpdHandover == \E i \in DOMAIN desc, j \in DOMAIN desc :
+                  i # j /\ Update(Remove([desc EXCEPT ![j].tok = desc[i].tok], i))
+
 AnyUpdate == \/ UpdEqual \/ UpdHeartbeat \/ UpdState \/ UpdBoth \/ UpdToken \/ UpdZone \/ UpdAddr
              \/ UpdReg \/ UpdROFlag \/ UpdROTime \/ UpdROBoth \/ UpdAdd \/ UpdRemove \/ UpdMixed
+
+Queries ==
+        \/ \E id \in Ident, size \in Sizes : SeqPlain(id, size)
+        \/ \E id \in Ident, size \in Sizes, L \in Lookbacks, now \in Times : SeqLb(id, size, L, now)
+        \/ \E p \in Readers, id \in Ident, size \in Sizes : QueryPlain(p, id, size)
+        \/ \E p \in Readers, id \in Ident, size \in Sizes, L \in Lookbacks, now \in Times : QueryLb(p, id, size, L, now)
+        \/ \E p \in Readers : Fill(p)
+        \/ \E id \in Ident : Cleanup(id) /\ (cache' # cache \/ lbc' # lbc)
+
+\* the "swap" configurations: exchanges and hand-overs next to the single-field updates
+NextSwap == AnyUpdate \/ UpdSwap \/ UpdHandover \/ Queries
 
 Next == \/ AnyUpdate
         \/ \E id \in Ident, size \in Sizes : SeqPlain(id, size)
